@@ -1,6 +1,7 @@
 # Copyright (c) Microsoft Corporation. All rights reserved.
 # Licensed under the MIT License.
 
+import copy
 import logging
 import pathlib
 from typing import Dict
@@ -14,6 +15,9 @@ logger = logging.getLogger("testdata")
 
 def generate_from_spec(spec: model.LSPModel, output_dir: str, test_dir: str) -> None:
     """Generate the code for the given spec."""
+    # The plugin names literals, adds and changes declarations while it works:
+    # on a copy, so that the caller's model stays as loaded for the next plugin.
+    spec = copy.deepcopy(spec)
     output = pathlib.Path(output_dir)
 
     if not output.exists():
